@@ -480,6 +480,11 @@ func (m *MycatPartitionPaddingModShard) checkParam() error {
 		return fmt.Errorf("invalid padding mod, padLength is less than modBegin - modEnd: %d, %d, %d", m.padLength, m.modBegin, m.modEnd)
 	}
 
+	// the mod segment [modBegin, modEnd) is cut out of a key padded to padLength characters
+	if m.padLength < m.modEnd {
+		return fmt.Errorf("invalid padding mod, padLength is less than modEnd: %d, %d", m.padLength, m.modEnd)
+	}
+
 	return nil
 }
 
